@@ -133,7 +133,13 @@ def run_schedule(cfg: dict[str, typing.Any], policy: tuple[typing.Any, ...]) -> 
                     rid = f"w{i}r{k}"
                     try:
                         p = box["pool"]
-                        if cfg.get("preload", True):
+                        if cfg.get("explicit_release"):
+                            # the caller keeps the connection (release_conn=False) although the body is preloaded, and
+                            # hands it back itself
+                            r = p.urlopen("GET", "/" + rid, release_conn=False)
+                            body = r.data
+                            r.release_conn()
+                        elif cfg.get("preload", True):
                             r = p.urlopen("GET", "/" + rid)
                             body = r.data
                         else:
@@ -424,6 +430,9 @@ def configs(ctx: Ctx) -> list[dict[str, typing.Any]]:
                             if workers == 3 and reqs == 2 and ctx.quick:
                                 continue
                             out.append({"workers": workers, "reqs": reqs, "maxsize": maxsize, "block": block, "closer": closer, "fail_first": fail, "fail_kind": "reset" if (workers + reqs + maxsize) % 2 else "503", "preload": (workers + maxsize + fail) % 3 != 0})
+    for maxsize in (1, 2):
+        for block in (True, False):
+            out.append({"workers": 2, "reqs": 2, "maxsize": maxsize, "block": block, "closer": False, "fail_first": 0, "fail_kind": "503", "preload": True, "explicit_release": True})
     # a body-less retry status / redirect as the first answer(s): the follow-up attempt needs the slot the first one used
     for workers in (2,):
         for maxsize in (1, 2):
